@@ -235,11 +235,11 @@ class CountingCuckooFilter(CuckooFilter):
     ) -> Union["CountingCuckooBin", None]:
         """insert a fingerprint, but with a count parameter!"""
         if self.__insert_element(fingerprint, idx_1, count):
-            self._inserted_elements += 1
+            self._inserted_elements += count
             self.__unique_elements += 1
             return None
         if self.__insert_element(fingerprint, idx_2, count):
-            self._inserted_elements += 1
+            self._inserted_elements += count
             self.__unique_elements += 1
             return None
 
@@ -260,7 +260,7 @@ class CountingCuckooFilter(CuckooFilter):
             idx = index_2 if idx == index_1 else index_1
 
             if self.__insert_element(prv_bin.finger, idx, prv_bin.count):
-                self._inserted_elements += 1
+                self._inserted_elements += count
                 self.__unique_elements += 1
                 return None
 
